@@ -53,7 +53,7 @@ func init() {
 						}
 					},
 					Run:      func(c *runner.Ctx, i int) { valueCase(c, i, m) },
-					Required: []string{"marshal_ok", "roundtrips", "nested_types", "large_collections", "marshal_results_rechecked"},
+					Required: []string{"marshal_ok", "roundtrips", "nested_types", "large_collections", "marshal_results_rechecked", "udt_redefinitions"},
 				}}
 			},
 		}
@@ -280,6 +280,9 @@ func valueCase(c *runner.Ctx, i int, m valMode) {
 		depth = 2
 	default:
 		depth = 2 + r.Intn(maxDepth-1)
+	}
+	if i%997 == 3 && proto >= 3 {
+		udtRedefined(c, i, proto)
 	}
 	t := gen.TypeTree(r, depth, proto)
 	// now and then: collections around the limits of the 2-byte framing of protocol 1/2 (element counts and
@@ -698,5 +701,71 @@ func largeCollection(r *rand.Rand, proto int) (*cqlref.Type, []cqlref.Val) {
 			vs[i] = cqlref.Val{Bool: i%3 == 0}
 		}
 		return &cqlref.Type{ID: cqlref.TMap, Key: T(cqlref.TInt), Elem: T(cqlref.TBoolean)}, []cqlref.Val{{Keys: ks, Elems: vs}}
+	}
+}
+
+// udtRedefined: one Go struct type used for a user-defined type whose definition changes under the same keyspace and
+// name (ALTER TYPE ... ADD while the application runs; the same type name in another cluster with another field
+// order). Each Marshal / Unmarshal goes by the definition it is given.
+type c12udtRow struct {
+	A int32  `cql:"a"`
+	B string `cql:"b"`
+	C int32  `cql:"c"`
+}
+
+func udtRedefined(c *runner.Ctx, i int, proto int) {
+	intT, textT := &cqlref.Type{ID: cqlref.TInt}, &cqlref.Type{ID: cqlref.TText}
+	name := fmt.Sprintf("redef_%d", i%7)
+	defs := []*cqlref.Type{
+		{ID: cqlref.TUDT, Keyspace: "ks", Name: name, Fields: []string{"a", "b"}, Elems: []*cqlref.Type{intT, textT}},
+		{ID: cqlref.TUDT, Keyspace: "ks", Name: name, Fields: []string{"a", "b", "c"}, Elems: []*cqlref.Type{intT, textT, intT}},
+		{ID: cqlref.TUDT, Keyspace: "ks", Name: name, Fields: []string{"c", "a"}, Elems: []*cqlref.Type{intT, intT}},
+	}
+	row := c12udtRow{A: int32(i%1000 + 1), B: fmt.Sprintf("b%d", i), C: int32(-i%1000 - 2)}
+	valOf := func(t *cqlref.Type) cqlref.Val {
+		v := cqlref.Val{Present: -1}
+		for _, f := range t.Fields {
+			switch f {
+			case "a":
+				v.Elems = append(v.Elems, cqlref.Val{I: big.NewInt(int64(row.A))})
+			case "b":
+				v.Elems = append(v.Elems, cqlref.Val{B: []byte(row.B)})
+			default:
+				v.Elems = append(v.Elems, cqlref.Val{I: big.NewInt(int64(row.C))})
+			}
+		}
+		return v
+	}
+	for k, t := range defs {
+		ref, err := cqlref.EncodeValue(t, valOf(t), proto)
+		if err != nil {
+			c.Broken("udtRedefined: reference encoder: " + err.Error())
+			return
+		}
+		ti := typeInfo(t, proto)
+		b, merr, pan := safeMarshal(ti, row)
+		c.Add("udt_redefinitions", 1)
+		wit := map[string]interface{}{"proto": proto, "definition": t.String(), "definition_number": k, "go_value": fmt.Sprintf("%+v", row)}
+		if pan != nil || merr != nil || !bytes.Equal(b, ref) {
+			c.Violation(fmt.Sprintf("%s:udt-redefined:marshal", c.Prop), fmt.Sprintf("a struct marshalled for definition %d of %s.%s (%v) gives %x, the specification's encoding is %x (err %v, panic %v)", k, t.Keyspace, t.Name, t.Fields, clip(b), clip(ref), merr, pan), wit)
+			return
+		}
+		var back c12udtRow
+		uerr, upan := safeUnmarshal(ti, ref, &back)
+		want := c12udtRow{}
+		for _, f := range t.Fields {
+			switch f {
+			case "a":
+				want.A = row.A
+			case "b":
+				want.B = row.B
+			default:
+				want.C = row.C
+			}
+		}
+		if upan != nil || uerr != nil || back != want {
+			c.Violation(fmt.Sprintf("%s:udt-redefined:unmarshal", c.Prop), fmt.Sprintf("definition %d of %s.%s (%v) decodes into %+v, want %+v (err %v, panic %v)", k, t.Keyspace, t.Name, t.Fields, back, want, uerr, upan), wit)
+			return
+		}
 	}
 }
